@@ -22,7 +22,7 @@ PLANS = {
     },
     "C03": {
         "level": "other",
-        "sidecars": ["serialise", "params", "driver", "grouping", "patching", "residues", "cellproto"],
+        "sidecars": ["serialise", "params", "driver", "grouping", "patching", "residues", "cellproto", "repair"],
         "extras": [{"name": "c03_atom_set_table", "module": "tables.x_checks", "func": "c03_atom_sets", "python": "vt"},
                    {"name": "c07_records", "module": "bounded.c07_records", "func": "run", "python": "venv", "timeout": 3000}],
         "explanation": "Contracts decide the bookkeeping: apply_force_field partitions the model into written / unassigned, "
@@ -46,7 +46,7 @@ PLANS = {
     },
     "C05": {
         "level": "other",
-        "sidecars": ["bonds", "debump", "quatfit", "tetra"],
+        "sidecars": ["bonds", "debump", "quatfit", "tetra", "repair"],
         "extras": [{"name": "c04_torsion_rank_table", "module": "tables.x_checks", "func": "c04_torsion_ranks", "python": "vt"},
                    {"name": "c05_geometry", "module": "bounded.c05_geometry", "func": "run", "python": "venv"}],
         "explanation": "Contracts decide only the placement mechanism: the fitted placement is a rigid motion of the "
@@ -58,14 +58,14 @@ PLANS = {
     },
     "C04": {
         "level": "proof",
-        "sidecars": ["debump", "driver", "quatfit"],
+        "sidecars": ["debump", "driver", "quatfit", "repair"],
         "extras": [{"name": "c04_torsion_rank_table", "module": "tables.x_checks", "func": "c04_torsion_ranks", "python": "vt"}],
         "explanation": "set_dihedral_angle frame + rigid rotation, debump_residue frame, option flags (call trace), "
                        "template rank table X",
     },
     "C12": {
         "level": "proof",
-        "sidecars": ["driver", "charges"],
+        "sidecars": ["driver", "charges", "repair"],
         "extras": [],
         "explanation": "failure side: the output writers are reached only after every check and the whole computation, "
                        "never on a path on which an exception escapes; option checks; integrality guard",
